@@ -157,6 +157,24 @@ func checkViews(c *Ctx, r *Rng, site string, b *labels.Block, v *vol, replayHead
 	for i := 0; i < nset && len(present) > 0; i++ {
 		set[present[r.Intn(len(present))]] = true
 	}
+	if r.Chance(0.3) {
+		// the whole label set of one multi-label sub-block (that sub-block is then fully covered by several
+		// labels of the set, while other sub-blocks are covered partly or not at all)
+		gx, gy, gz := v.sx/8, v.sy/8, v.sz/8
+		for try := 0; try < 6; try++ {
+			bx, by, bz := r.Intn(gx), r.Intn(gy), r.Intn(gz)
+			sub := map[uint64]bool{}
+			for i := 0; i < 512; i++ {
+				x, y, z := i%8, (i/8)%8, i/64
+				sub[v.a[(bz*8+z)*v.sx*v.sy+(by*8+y)*v.sx+bx*8+x]] = true
+			}
+			if len(sub) >= 2 && len(sub) <= 6 {
+				set = sub
+				c.Count("sparse-set = all labels of one sub-block")
+				break
+			}
+		}
+	}
 	if r.Chance(0.2) {
 		set[r.U64()|1<<62] = true // absent label
 	}
